@@ -373,7 +373,8 @@ func classify(sc scenario) func(x *vsched.Exec) (string, string, string, string)
 func checkAccessList() {
 	var ov struct {
 		Rewrite []struct {
-			Access []string `json:"access"`
+			Access        []string `json:"access"`
+			AccessStructs []string `json:"access_structs"`
 		} `json:"rewrite"`
 	}
 	b, err := os.ReadFile("/verif/checks/c07/overlay.json")
@@ -385,6 +386,11 @@ func checkAccessList() {
 		have[a] = true
 	}
 	want := map[string]bool{"Router": true, "BaseRule": true, "LinkedRule": true}
+	// mkoverlay's access_structs instruments every field of the named structs from the
+	// current tree (a field added later included); structs listed there need no check here
+	for _, n := range ov.Rewrite[0].AccessStructs {
+		delete(want, n)
+	}
 	for _, rel := range []string{"proxy/router/router.go", "proxy/router/rule.go"} {
 		src := filepath.Join("/repo", rel)
 		if bd := os.Getenv("VERIF_BUILD_DIR"); bd != "" {
